@@ -1,15 +1,24 @@
 """Sidecar contracts for rnapolis/parser_v2.py - string-level parts of C09 (PDB write/read round trip) and C15 (reader agreement).
 
-Under contract
-  _format_pdb_atom_line   80-column layout of an ATOM/HETATM record (PDB 3.3 coordinate section)
-  _format_pdb_ter_line    layout of a TER record
-  parse_pdb_atoms@decode  PREFIX contract (up to the DataFrame construction): the `records` list holds, for every ATOM/HETATM
-                          line in file order, the column decode of that line
-and the string lemmas that connect them (field-by-field inverse; agreement of the two readers' per-line decode).
+Under contract (real code, re-read on every run)
+  _format_pdb_atom_line                 80-column layout of an ATOM/HETATM record, PDB 3.3 coordinate section (clauses LAYOUT)
+  _format_pdb_atom_line@signed_charge   the same with the charge handed over as a signed integer text (the mmCIF form)
+  _format_pdb_ter_line                  layout of a TER record
+  parse_pdb_atoms@decode                PREFIX contract (up to, not including, the DataFrame construction): the `records` list
+                                        holds, for every ATOM/HETATM line in file order, the column decode of that line
+String lemmas (kind "smt": proved; "definition" / "assumed-external": assumptions, listed in props/C09.py and props/C15.py)
+  layout80 / layout_ter       column arithmetic of the concatenation of fixed-width pieces
+  inv_* , int_of_str          field-by-field inverse: strip() of a field as laid out returns the value written
+  roundtrip_line              LAYOUT(a, L) and decoded_v2(r, L)  ==>  r holds a's fields (numbers through int()/float())
+  readers_agree_on_a_line     C15: parser.parse_pdb's decode (clause `decoded` of contracts/parser_c.py) and decoded_v2 of one line
+  strip_definition            DEFINITION of the uninterpreted py_strip on texts of at most 8 characters
+  fmt83_roundtrip, fmt62_roundtrip, float_rejects_digit_sign, float_of_signed_digit     ASSUMED facts about CPython float formatting / parsing
 
 Vocabulary
   AtomData   the dict handed to _format_pdb_atom_line, modelled as a record: the dict has exactly the keys write_pdb builds
   PdbRecord  the dict appended to `records` by parse_pdb_atoms, modelled as a record (same reason)
+Out of reach here (bounded in the property modules): the pandas row loops of write_pdb / write_cif, the DataFrame construction
+and dtype conversion at the end of parse_pdb_atoms, everything mmCIF.
 """
 import z3 as _z3
 
@@ -141,6 +150,12 @@ def col(l, a, b):
 @spec
 def fits_pdb(a):
     """the property's quantifier "whenever the data fit PDB field widths" """
+    return fits_core(a) and (a.charge == "" or matches(a.charge, DIGIT_SIGN))
+
+
+@spec
+def fits_core(a):
+    """every field but the charge"""
     return ((a.record_name == "ATOM" or a.record_name == "HETATM")
             and 0 <= a.serial and a.serial <= 99999
             and 1 <= len(a.name) and len(a.name) <= 4
@@ -150,8 +165,7 @@ def fits_pdb(a):
             and 0 - 999 <= a.resSeq and a.resSeq <= 9999
             and len(a.iCode) <= 1
             and fits83(a.x) and fits83(a.y) and fits83(a.z) and fits62(a.occupancy) and fits62(a.tempFactor)
-            and len(a.element) <= 2
-            and (a.charge == "" or matches(a.charge, DIGIT_SIGN)))
+            and len(a.element) <= 2)
 
 
 @spec
@@ -169,9 +183,6 @@ LEMMAS["float_rejects_digit_sign"] = {
     "kind": "assumed-external", "params": ["s"], "shapes": ["str"],
     "requires": ["matches(s, DIGIT_SIGN)"], "ensures": ["not float_ok(s)"]}
 
-
-WS_ONE = "[" + WS_CHARS + "]"
-WS_STAR = WS_ONE + "*"
 
 LEMMAS["strip_definition"] = {
     # DEFINITION of the uninterpreted py_strip (= str.strip() without arguments) on texts of at most 8 characters (every PDB
@@ -197,56 +208,7 @@ LEMMAS["layout80"] = {
 LEMMAS["strip_digit_sign"] = {
     # a digit followed by a sign contains no whitespace: strip() leaves it unchanged
     "kind": "smt", "params": ["s"], "shapes": ["str"], "requires": ["matches(s, DIGIT_SIGN)"], "ensures": ["strip(s) == s"],
-    "steps": ["use strip_definition(s)"]}
-
-
-class format_atom_c:
-    params = {"atom_data": "rec[AtomData]"}
-    requires = ["fits_pdb(atom_data)"]
-    returns = "str"
-    raises = []
-    modifies = []
-    ensures = [
-        "len(result) == 80",
-        "col(result, 1, 6) == atom_data.record_name.ljust(6)",
-        "col(result, 7, 11) == str(atom_data.serial).rjust(5)",
-        "col(result, 12, 12) == ' '",
-        "col(result, 13, 16) == name_field(atom_data.name)",
-        "col(result, 17, 17) == atom_data.altLoc.ljust(1)",
-        "col(result, 18, 20) == atom_data.resName.rjust(3)",
-        "col(result, 21, 21) == ' '",
-        "col(result, 22, 22) == atom_data.chainID.ljust(1)",
-        "col(result, 23, 26) == str(atom_data.resSeq).rjust(4)",
-        "col(result, 27, 27) == atom_data.iCode.ljust(1)",
-        "col(result, 28, 30) == '   '",
-        "col(result, 31, 38) == fmt83(atom_data.x)",
-        "col(result, 39, 46) == fmt83(atom_data.y)",
-        "col(result, 47, 54) == fmt83(atom_data.z)",
-        "col(result, 55, 60) == fmt62(atom_data.occupancy)",
-        "col(result, 61, 66) == fmt62(atom_data.tempFactor)",
-        "col(result, 67, 76) == '          '",
-        "col(result, 77, 78) == atom_data.element.rjust(2)",
-        "col(result, 79, 80) == atom_data.charge.rjust(2)",
-    ]
-    ensures_labels = {0: "length-80", 1: "record-name-1-6", 2: "serial-7-11-right-justified", 3: "blank-12", 4: "atom-name-13-16",
-                      5: "altLoc-17", 6: "resName-18-20-right-justified", 7: "blank-21", 8: "chainID-22", 9: "resSeq-23-26-right-justified",
-                      10: "iCode-27", 11: "blank-28-30", 12: "x-31-38", 13: "y-39-46", 14: "z-47-54", 15: "occupancy-55-60",
-                      16: "tempFactor-61-66", 17: "blank-67-76", 18: "element-77-78-right-justified", 19: "charge-79-80"}
-    ghost = [
-        {"when": "before", "at": "if charge_val:", "label": "charge-is-not-a-float-literal",
-         "do": ["use float_rejects_digit_sign(charge_val) when charge_val != ''"]},
-        {"when": "before", "at": "charge_fmt = charge_fmt.strip()", "label": "charge-text-has-no-blanks",
-         "do": ["use strip_digit_sign(charge_fmt)"]},
-        {"when": "after", "at": "serial = str(", "label": "serial-fills-5-columns", "do": ["assert len(serial) == 5"]},
-        {"when": "after", "at": "res_seq = str(", "label": "resSeq-fills-4-columns", "do": ["assert len(res_seq) == 4"]},
-        {"when": "after", "at": "line = f", "label": "fields",
-         "do": ["name line", "name record_name, serial, atom_name_fmt, alt_loc, res_name, chain_id, res_seq, icode, x, y, z, occupancy, temp_factor, element, charge_fmt",
-                "assert atom_name_fmt == name_field(atom_data.name)",
-                "assert alt_loc == atom_data.altLoc.ljust(1) and chain_id == atom_data.chainID.ljust(1) and icode == atom_data.iCode.ljust(1)",
-                "assert charge_fmt == atom_data.charge.rjust(2)",
-                "use layout80(line, record_name, serial, atom_name_fmt, alt_loc, res_name, chain_id, res_seq, icode, x, y, z, occupancy, temp_factor, element, charge_fmt)",
-                "keep 38"]},
-    ]
+    "steps": ["assert len(s) == 2", "use strip_definition(s)"]}
 
 
 @spec
@@ -256,6 +218,153 @@ def name_field(n):
     return ite(len(n) < 4 and n[:1].isalpha(), (" " + n).ljust(4), n.ljust(4))
 
 
+# one clause per PDB 3.3 field of the ATOM/HETATM record (columns 1-based, inclusive); `a` the atom data, L the line
+@spec
+def lay_record(a, L):
+    return col(L, 1, 6) == a.record_name.ljust(6)
+
+
+@spec
+def lay_serial(a, L):
+    return col(L, 7, 11) == str(a.serial).rjust(5)
+
+
+@spec
+def lay_name(a, L):
+    return col(L, 13, 16) == name_field(a.name)
+
+
+@spec
+def lay_altloc(a, L):
+    return col(L, 17, 17) == a.altLoc.ljust(1)
+
+
+@spec
+def lay_resname(a, L):
+    return col(L, 18, 20) == a.resName.rjust(3)
+
+
+@spec
+def lay_chain(a, L):
+    return col(L, 22, 22) == a.chainID.ljust(1)
+
+
+@spec
+def lay_resseq(a, L):
+    return col(L, 23, 26) == str(a.resSeq).rjust(4)
+
+
+@spec
+def lay_icode(a, L):
+    return col(L, 27, 27) == a.iCode.ljust(1)
+
+
+@spec
+def lay_xyz(a, L):
+    return col(L, 31, 38) == fmt83(a.x) and col(L, 39, 46) == fmt83(a.y) and col(L, 47, 54) == fmt83(a.z)
+
+
+@spec
+def lay_occ_b(a, L):
+    return col(L, 55, 60) == fmt62(a.occupancy) and col(L, 61, 66) == fmt62(a.tempFactor)
+
+
+@spec
+def lay_element(a, L):
+    return col(L, 77, 78) == a.element.rjust(2)
+
+
+@spec
+def lay_charge(a, L):
+    return col(L, 79, 80) == a.charge.rjust(2)
+
+
+@spec
+def lay_blanks(L):
+    return col(L, 12, 12) == " " and col(L, 21, 21) == " " and col(L, 28, 30) == "   " and col(L, 67, 76) == "          "
+
+
+LAYOUT = ["len({L}) == 80", "lay_record({a}, {L})", "lay_serial({a}, {L})", "lay_name({a}, {L})", "lay_altloc({a}, {L})", "lay_resname({a}, {L})",
+          "lay_chain({a}, {L})", "lay_resseq({a}, {L})", "lay_icode({a}, {L})", "lay_xyz({a}, {L})", "lay_occ_b({a}, {L})", "lay_element({a}, {L})",
+          "lay_charge({a}, {L})", "lay_blanks({L})"]
+
+
+def _line_ghost(charge_text):
+    """ghost steps behind the statement that assembles the line: every piece gets a short name, the pieces whose text is not
+    literally the specification's are shown equal to it, lemma layout80 places them, and only these facts are kept"""
+    at = {"when": "after", "at": "line = f"}
+    pieces = "record_name, serial, atom_name_fmt, alt_loc, res_name, chain_id, res_seq, icode, x, y, z, occupancy, temp_factor, element, charge_fmt"
+    return [
+        dict(at, label="name-the-pieces", do=["name line", "name " + pieces]),
+        dict(at, label="atom-name-field-follows-the-alignment-rule", do=["assert atom_name_fmt == name_field(atom_data.name)"]),
+        dict(at, label="altLoc-chainID-iCode-fill-one-column",
+             do=["assert alt_loc == atom_data.altLoc.ljust(1) and chain_id == atom_data.chainID.ljust(1) and icode == atom_data.iCode.ljust(1)"]),
+        dict(at, label="charge-field-79-80", do=["assert charge_fmt == " + charge_text]),
+        dict(at, label="line-is-the-fields-in-PDB-column-order", do=["use layout80(line, " + pieces + ")", "keep 38"]),
+    ]
+
+
+class format_atom_c:
+    """_format_pdb_atom_line: for atom data within PDB limits the line has 80 columns and every field sits at its PDB 3.3
+    columns (the clauses LAYOUT, instantiated for the argument and the result)"""
+    params = {"atom_data": "rec[AtomData]"}
+    requires = ["fits_pdb(atom_data)"]
+    returns = "str"
+    raises = []
+    modifies = []
+    ensures = [t_.format(a="atom_data", L="result") for t_ in LAYOUT]
+    ensures_labels = {0: "length-80", 1: "record-name-1-6", 2: "serial-7-11-right-justified", 3: "atom-name-13-16", 4: "altLoc-17",
+                      5: "resName-18-20-right-justified", 6: "chainID-22", 7: "resSeq-23-26-right-justified", 8: "iCode-27",
+                      9: "x-31-38-y-39-46-z-47-54", 10: "occupancy-55-60-tempFactor-61-66", 11: "element-77-78-right-justified",
+                      12: "charge-79-80", 13: "blank-12-21-28-30-67-76"}
+    ghost = [
+        {"when": "before", "at": "if charge_val:", "label": "charge-is-not-a-float-literal",
+         "do": ["use float_rejects_digit_sign(charge_val) when charge_val != ''"]},
+        {"when": "before", "at": "charge_fmt = charge_fmt.strip()", "label": "charge-text-has-no-blanks",
+         "do": ["use strip_digit_sign(charge_fmt)"]},
+        {"when": "after", "at": "serial = str(", "label": "serial-fills-5-columns", "do": ["assert len(serial) == 5"]},
+        {"when": "after", "at": "res_seq = str(", "label": "resSeq-fills-4-columns", "do": ["assert len(res_seq) == 4"]},
+    ] + _line_ghost("atom_data.charge.rjust(2)")
+
+
+SIGNED_DIGIT = "-?[0-9]"
+LEMMAS["float_of_signed_digit"] = {
+    # ASSUMED (CPython float()): an optionally negated single digit is a float literal whose value is the integer it spells
+    "kind": "assumed-external", "params": ["s"], "shapes": ["str"],
+    "requires": ["matches(s, SIGNED_DIGIT)"], "ensures": ["float_ok(s)", "float(s) == int(s)"]}
+LEMMAS["signed_digit_value"] = {
+    # the integer spelled by an optionally negated digit (int() as modelled by pyvc) lies in -9..9
+    "kind": "smt", "params": ["s"], "shapes": ["str"], "requires": ["matches(s, SIGNED_DIGIT)"], "ensures": ["0 - 9 <= int(s) and int(s) <= 9"],
+    "steps": ["assert implies(len(s) == 1, 0 <= int(s) and int(s) <= 9)", "assert implies(len(s) == 2, 0 - 9 <= int(s) and int(s) <= 0)"]}
+LEMMAS["strip_digit_then_sign"] = {
+    "kind": "smt", "params": ["v", "g"], "shapes": ["int", "str"], "requires": ["1 <= v and v <= 9", "g == '+' or g == '-'"],
+    "ensures": ["strip(str(v) + g) == str(v) + g", "len(str(v) + g) == 2"],
+    "steps": ["assert len(str(v)) == 1", "use strip_definition(str(v) + g)"]}
+
+
+@spec
+def pdb_charge_text(c):
+    """the PDB charge columns for the signed integer c: blank for 0, else magnitude digit followed by the sign"""
+    return ite(c == 0, "  ", str(abs(c)) + ite(c > 0, "+", "-"))
+
+
+class format_atom_signed_charge_c(format_atom_c):
+    """the same function for a charge given as a signed integer text ('2', '-1': what write_pdb hands over for an mmCIF table):
+    columns 79-80 hold the PDB form (magnitude digit, then sign), blank for 0; all other clauses as before"""
+    requires = ["fits_core(atom_data)", "matches(atom_data.charge, SIGNED_DIGIT)"]
+    ensures = [t_.format(a="atom_data", L="result") for t_ in LAYOUT if not t_.startswith("lay_charge")] \
+        + ["col(result, 79, 80) == pdb_charge_text(int(atom_data.charge))"]
+    ensures_labels = {**{k_: v_ for k_, v_ in format_atom_c.ensures_labels.items() if k_ < 12}, 12: "blank-12-21-28-30-67-76", 13: "charge-79-80-magnitude-then-sign"}
+    ghost = [
+        {"when": "before", "at": "if charge_val:", "label": "charge-is-a-float-literal",
+         "do": ["use float_of_signed_digit(charge_val)", "use signed_digit_value(charge_val)", "let cv = int(atom_data.charge)"]},
+        {"when": "after", "at": "charge_int = int(float(charge_val))", "label": "charge-value", "do": ["assert charge_int == cv"]},
+        {"when": "after", "at": "charge_fmt = f", "label": "charge-text-has-no-blanks",
+         "do": ["use strip_digit_then_sign(abs(charge_int), '+' if charge_int > 0 else '-')"]},
+    ] + [g_ for g_ in format_atom_c.ghost if g_["label"] in ("serial-fills-5-columns", "resSeq-fills-4-columns")] + [
+    ] + _line_ghost("pdb_charge_text(cv)")
+
+
 # ------------------------------------------------------------------------------------------------ field-by-field inverse
 @spec
 def clean(s):
@@ -263,20 +372,29 @@ def clean(s):
     return len(s) >= 1 and not is_ws(s[:1]) and not is_ws(s[-1:])
 
 
-def _inv(requires, ensures, steps=("use strip_definition(F)",), params=("F", "s"), shapes=("str", "str")):
-    return {"kind": "smt", "params": list(params), "shapes": list(shapes), "requires": list(requires), "ensures": list(ensures), "steps": list(steps)}
+def _inv(requires, ensures, value="s", lengths=(), cases=(), params=("F", "s"), shapes=("str", "str")):
+    """inverse lemma of one field; proof: unfold strip on the field, then one case per length of the written text"""
+    steps = ["use strip_definition(F)"] + [f"assert implies(len({value}) == {k}, strip(F) == {value})" for k in lengths] \
+        + [f"assert implies({c_}, strip(F) == {value})" for c_ in cases]
+    return {"kind": "smt", "params": list(params), "shapes": list(shapes), "requires": list(requires), "ensures": list(ensures), "steps": steps}
 
 
-# F = the content of the field's columns as the formatter lays it out; s = the value written
-LEMMAS["inv_record"] = _inv(["s == 'ATOM' or s == 'HETATM'", "F == s.ljust(6)"], ["strip(F) == s"])
-LEMMAS["inv_rjust3"] = _inv(["clean(s) and len(s) <= 3", "F == s.rjust(3)"], ["strip(F) == s"])
-LEMMAS["inv_rjust2"] = _inv(["(s == '' or clean(s)) and len(s) <= 2", "F == s.rjust(2)"], ["strip(F) == s"])
-LEMMAS["inv_ljust1"] = _inv(["(s == '' or clean(s)) and len(s) <= 1", "F == s.ljust(1)"], ["strip(F) == s"])
-LEMMAS["inv_name"] = _inv(["clean(s) and len(s) <= 4", "F == name_field(s)"], ["strip(F) == s"])
-LEMMAS["inv_serial"] = _inv(["0 <= n and n <= 99999", "F == str(n).rjust(5)"], ["strip(F) == str(n)", "int(strip(F)) == n"],
+# F = the content of the field's columns as the formatter lays it out; s (n) = the value written
+LEMMAS["inv_record"] = _inv(["s == 'ATOM' or s == 'HETATM'", "F == s.ljust(6)"], ["strip(F) == s"], cases=("s == 'ATOM'", "s == 'HETATM'"))
+LEMMAS["inv_rjust3"] = _inv(["clean(s) and len(s) <= 3", "F == s.rjust(3)"], ["strip(F) == s"], lengths=(1, 2, 3))
+LEMMAS["inv_rjust2"] = _inv(["(s == '' or clean(s)) and len(s) <= 2", "F == s.rjust(2)"], ["strip(F) == s"], lengths=(0, 1, 2))
+LEMMAS["inv_ljust1"] = _inv(["(s == '' or clean(s)) and len(s) <= 1", "F == s.ljust(1)"], ["strip(F) == s"], lengths=(0, 1))
+LEMMAS["inv_name"] = _inv(["clean(s) and len(s) <= 4", "F == name_field(s)"], ["strip(F) == s"], lengths=(1, 2, 3, 4))
+LEMMAS["inv_serial"] = _inv(["0 <= n and n <= 99999", "F == str(n).rjust(5)"], ["strip(F) == str(n)"], value="str(n)", lengths=(1, 2, 3, 4, 5),
                             params=("F", "n"), shapes=("str", "int"))
-LEMMAS["inv_resseq"] = _inv(["0 - 999 <= n and n <= 9999", "F == str(n).rjust(4)"], ["strip(F) == str(n)", "int(strip(F)) == n"],
+LEMMAS["inv_resseq"] = _inv(["0 - 999 <= n and n <= 9999", "F == str(n).rjust(4)"], ["strip(F) == str(n)"], value="str(n)",
+                            cases=[f"n >= 0 and len(str(n)) == {k_}" for k_ in (1, 2, 3, 4)] + [f"n < 0 and len(str(n)) == {k_}" for k_ in (2, 3, 4)],
                             params=("F", "n"), shapes=("str", "int"))
+LEMMAS["int_of_str"] = {
+    # reading back the decimal text of an integer of at most 5 digits gives the integer (int() as modelled by pyvc: the value of
+    # a plain digit string is str.to_int, a leading '-' negates)
+    "kind": "smt", "params": ["n"], "shapes": ["int"], "requires": ["0 - 99999 <= n and n <= 99999"], "ensures": ["int(str(n)) == n"],
+    "steps": ["assert implies(n >= 0, int(str(n)) == n)", "assert implies(n < 0, int(str(n)) == n)"]}
 
 # ------------------------------------------------------------------------------------------------ parse_pdb_atoms: per-line decode
 CLASSES["PdbRecord"] = {"kind": "record", "dict_keys": True,
@@ -418,4 +536,145 @@ class parse_pdb_atoms_decode_c:
     ]
 
 
-CONTRACTS = {"_format_pdb_atom_line": format_atom_c, "parse_pdb_atoms@decode": parse_pdb_atoms_decode_c}
+# ------------------------------------------------------------------------------------------------ write -> read of one line
+LEMMAS["fmt83_roundtrip"] = {
+    # ASSUMED (CPython float formatting and parsing): the 3-decimal text of a value that fits the field is a float literal
+    # (also after removing the padding blanks) within half a unit of the last place of the value
+    "kind": "assumed-external", "params": ["x"], "shapes": ["real"], "requires": ["fits83(x)"],
+    "ensures": ["float_ok(strip(fmt83(x)))", "abs(float(strip(fmt83(x))) - x) <= 0.0005"]}
+LEMMAS["fmt62_roundtrip"] = {
+    "kind": "assumed-external", "params": ["x"], "shapes": ["real"], "requires": ["fits62(x)"],
+    "ensures": ["float_ok(strip(fmt62(x)))", "abs(float(strip(fmt62(x))) - x) <= 0.005"]}
+
+
+@spec
+def clean_or_empty(s):
+    return s == "" or clean(s)
+
+
+@spec
+def clean_fields(a):
+    """the text fields carry no leading / trailing whitespace (blanks are the file format's padding: they cannot survive)"""
+    return (clean(a.name) and clean(a.resName) and clean_or_empty(a.altLoc) and clean_or_empty(a.chainID)
+            and clean_or_empty(a.iCode) and clean_or_empty(a.element))
+
+
+LEMMAS["digit_sign_clean"] = {
+    "kind": "smt", "params": ["s"], "shapes": ["str"], "requires": ["matches(s, DIGIT_SIGN)"], "ensures": ["clean(s) and len(s) == 2"],
+    "steps": ["assert len(s) == 2", "assert matches(s[:1], '[0-9]') and matches(s[-1:], '[+-]')"]}
+LEMMAS["roundtrip_line"] = {
+    # the line L laid out for the atom data a (clauses LAYOUT = the postcondition of _format_pdb_atom_line), decoded by
+    # parse_pdb_atoms into the record r (decoded_v2 = the stop-postcondition of parse_pdb_atoms@decode), gives a's fields back;
+    # numeric texts are judged through int() / float() (what pandas.to_numeric is assumed to compute on them)
+    "kind": "smt", "params": ["a", "L", "r"], "shapes": ["rec[AtomData]", "str", "rec[PdbRecord]"],
+    "requires": ["fits_pdb(a)", "clean_fields(a)"] + [t_.format(a="a", L="L") for t_ in LAYOUT] + ["decoded_v2(r, L)"],
+    "ensures": ["r.record_type == a.record_name",
+                "r.serial == str(a.serial) and int(r.serial) == a.serial",
+                "r.name == a.name",
+                "r.altLoc == none_if_blank(a.altLoc)",
+                "r.resName == a.resName",
+                "r.chainID == a.chainID",
+                "r.resSeq == str(a.resSeq) and int(r.resSeq) == a.resSeq",
+                "r.iCode == none_if_blank(a.iCode)",
+                "float_ok(r.x) and float_ok(r.y) and float_ok(r.z) and abs(float(r.x) - a.x) <= 0.0005 and abs(float(r.y) - a.y) <= 0.0005 and abs(float(r.z) - a.z) <= 0.0005",
+                "float_ok(r.occupancy) and float_ok(r.tempFactor) and abs(float(r.occupancy) - a.occupancy) <= 0.005 and abs(float(r.tempFactor) - a.tempFactor) <= 0.005",
+                "r.element == none_if_blank(a.element)",
+                "r.charge == none_if_blank(a.charge)",
+                "is_atom_v2(L)"],
+    "steps": ["use inv_record(col(L, 1, 6), a.record_name)",
+              "use inv_serial(col(L, 7, 11), a.serial)", "use int_of_str(a.serial)",
+              "use inv_name(col(L, 13, 16), a.name)",
+              "use inv_ljust1(col(L, 17, 17), a.altLoc)",
+              "use inv_rjust3(col(L, 18, 20), a.resName)",
+              "use inv_ljust1(col(L, 22, 22), a.chainID)",
+              "use inv_resseq(col(L, 23, 26), a.resSeq)", "use int_of_str(a.resSeq)",
+              "use inv_ljust1(col(L, 27, 27), a.iCode)",
+              "use fmt83_roundtrip(a.x)", "use fmt83_roundtrip(a.y)", "use fmt83_roundtrip(a.z)",
+              "use fmt62_roundtrip(a.occupancy)", "use fmt62_roundtrip(a.tempFactor)",
+              "use inv_rjust2(col(L, 77, 78), a.element)",
+              "use digit_sign_clean(a.charge) when a.charge != ''", "assert_last 1 clean_or_empty(a.charge) and len(a.charge) <= 2",
+              "use inv_rjust2(col(L, 79, 80), a.charge)"]}
+
+
+# ------------------------------------------------------------------------------------------------ TER record
+TER_PIECES = ["p_ser", "p_res", "p_chn", "p_seq", "p_ico"]
+LEMMAS["layout_ter"] = {
+    # 'TER   ' + serial(5) + 6 blanks + resName(3) + blank + chain(1) + resSeq(4) + iCode(1), blank-padded to 80 columns
+    "kind": "smt", "params": ["L"] + TER_PIECES, "shapes": ["str"] * 6,
+    "requires": ["L == 'TER   ' + p_ser + '      ' + p_res + ' ' + p_chn + p_seq + p_ico",
+                 "len(p_ser) == 5", "len(p_res) == 3", "len(p_chn) == 1", "len(p_seq) == 4", "len(p_ico) == 1"],
+    "ensures": ["len(L) == 27", "len(L.ljust(80)) == 80", "col(L.ljust(80), 1, 6) == 'TER   '", "col(L.ljust(80), 7, 11) == p_ser",
+                "col(L.ljust(80), 12, 17) == '      '", "col(L.ljust(80), 18, 20) == p_res", "col(L.ljust(80), 21, 21) == ' '",
+                "col(L.ljust(80), 22, 22) == p_chn", "col(L.ljust(80), 23, 26) == p_seq", "col(L.ljust(80), 27, 27) == p_ico",
+                "col(L.ljust(80), 28, 80) == ' ' * 53"]}
+LEMMAS["strip_clean"] = {
+    # strip() leaves a text without leading / trailing whitespace unchanged (here: residue names, at most 3 characters)
+    "kind": "smt", "params": ["s"], "shapes": ["str"], "requires": ["clean(s) and len(s) <= 3"], "ensures": ["strip(s) == s"],
+    "steps": ["use strip_definition(s)"] + [f"assert implies(len(s) == {k_}, strip(s) == s)" for k_ in (1, 2, 3)]}
+
+
+class format_ter_c:
+    """_format_pdb_ter_line(serial, (resSeq, iCode, resName), chain): the TER record of PDB 3.3 - 1-6 'TER   ', 7-11 serial,
+    18-20 resName, 22 chainID, 23-26 resSeq, 27 iCode, blanks elsewhere, 80 columns"""
+    params = {"serial": "int", "res_info": "tuple[int,str,str]", "chain_id": "str"}
+    requires = ["0 <= serial and serial <= 99999", "0 - 999 <= res_info[0] and res_info[0] <= 9999", "len(res_info[1]) <= 1",
+                "clean(res_info[2]) and len(res_info[2]) <= 3", "len(chain_id) <= 1"]
+    returns = "str"
+    raises = []
+    modifies = []
+    ensures = ["len(result) == 80", "col(result, 1, 6) == 'TER   '", "col(result, 7, 11) == str(serial).rjust(5)",
+               "col(result, 12, 17) == '      '", "col(result, 18, 20) == res_info[2].rjust(3)", "col(result, 21, 21) == ' '",
+               "col(result, 22, 22) == chain_id.ljust(1)", "col(result, 23, 26) == str(res_info[0]).rjust(4)",
+               "col(result, 27, 27) == res_info[1].ljust(1)", "col(result, 28, 80) == ' ' * 53"]
+    ensures_labels = {0: "length-80", 1: "record-name-1-6", 2: "serial-7-11-right-justified", 3: "blank-12-17", 4: "resName-18-20-right-justified",
+                      5: "blank-21", 6: "chainID-22", 7: "resSeq-23-26-right-justified", 8: "iCode-27", 9: "blank-28-80"}
+    ghost = [
+        {"when": "before", "at": "res_name = res_info[2].strip()", "label": "residue-name-has-no-blanks", "do": ["use strip_clean(res_info[2])"]},
+        {"when": "before", "at": "return f", "label": "resName-chain-iCode-fields",
+         "do": ["assert res_name == res_info[2].rjust(3) and chain == chain_id.ljust(1) and icode == res_info[1].ljust(1)"]},
+        {"when": "before", "at": "return f", "label": "field-widths-5-3-1-4-1",
+         "do": ["assert len(str(serial).rjust(5)) == 5 and len(res_name) == 3 and len(chain) == 1 and len(res_seq) == 4 and len(icode) == 1"]},
+        {"when": "before", "at": "return f", "label": "line-is-the-fields-in-PDB-column-order",
+         "do": ["name res_name, chain, res_seq, icode",
+                "use layout_ter('TER   ' + str(serial).rjust(5) + '      ' + res_name + ' ' + chain + res_seq + icode, str(serial).rjust(5), res_name, chain, res_seq, icode)"]},
+    ]
+
+
+# ------------------------------------------------------------------------------------------------ C15: the two PDB readers on one line
+# the residue-level reader's per-line decode is the clause `decoded(a, l, m)` of contracts/parser_c.py (proved there for
+# parser.parse_pdb, target parse_pdb@decode); its spec vocabulary and record classes are loaded from that sidecar
+from contracts import parser_c as _P
+__file_spec__ = [_P.__file__, __file__]
+for _k in ("ResidueLabel", "ResidueAuth", "Atom"):
+    CLASSES[_k] = _P.CLASSES[_k]
+
+LEMMAS["readers_agree_on_a_line"] = {
+    # one ATOM/HETATM line l of at least 27 columns: a = the atom parser.parse_pdb decodes from it (clause `decoded` of
+    # parser_c), r = the record parser_v2.parse_pdb_atoms decodes from it (clause decoded_v2).  Numbers: the table-level reader
+    # keeps the text and pandas.to_numeric converts it later (assumed to be int() / float() of that text)
+    "kind": "smt", "params": ["a", "r", "l", "m"], "shapes": ["rec[Atom]", "rec[PdbRecord]", "str", "int"],
+    "requires": ["len(l) >= 27", "decoded(a, l, m)", "decoded_v2(r, l)"],
+    "ensures": [
+        "a.name == r.name",
+        "a.auth.name == r.resName",
+        # chain: the residue-level reader takes column 22 as it is, the table-level reader removes whitespace from it
+        "implies(not is_ws(col(l, 22, 22)), a.auth.chain == r.chainID)",
+        "implies(is_ws(col(l, 22, 22)), a.auth.chain == col(l, 22, 22) and r.chainID == '')",
+        "a.auth.number == int(r.resSeq)",
+        # insertion code: both report None for a blank column 27 and the character for a non-whitespace one; a whitespace
+        # character other than the blank is kept by the residue-level reader and dropped (None) by the table-level reader
+        "implies(col(l, 27, 27) == ' ', a.auth.icode is None and r.iCode is None)",
+        "implies(not is_ws(col(l, 27, 27)), a.auth.icode == col(l, 27, 27) and r.iCode == col(l, 27, 27))",
+        "implies(is_ws(col(l, 27, 27)) and col(l, 27, 27) != ' ', a.auth.icode == col(l, 27, 27) and r.iCode is None)",
+        "a.x == float(r.x) and a.y == float(r.y) and a.z == float(r.z)",
+        "a.occupancy == float(r.occupancy)",
+    ],
+    "steps": ["use strip_definition(col(l, 22, 22))", "use strip_definition(col(l, 27, 27))"]}
+LEMMAS["record_test_agrees"] = {
+    # a line whose columns 1-6 hold the padded record name (what the residue-level reader's contract calls an ATOM/HETATM line)
+    # is an ATOM/HETATM line for the table-level reader too (the converse does not hold: ' ATOM ' is accepted only by the latter)
+    "kind": "smt", "params": ["l"], "shapes": ["str"], "requires": ["is_atom_line(l)"], "ensures": ["is_atom_v2(l)"],
+    "steps": ["use strip_definition(col(l, 1, 6))"]}
+
+
+CONTRACTS = {"_format_pdb_atom_line": format_atom_c, "_format_pdb_atom_line@signed_charge": format_atom_signed_charge_c, "_format_pdb_ter_line": format_ter_c, "parse_pdb_atoms@decode": parse_pdb_atoms_decode_c}
